@@ -314,7 +314,7 @@ func (c *c09Case) finish() string {
 var c09Directed = []string{"lostwakeup-empty", "lostwakeup-locked", "lostwakeup-checked", "kill-vs-wait",
 	"kill-vs-wait-empty", "resize-up-burst", "resize-down-burst", "joinall-burst", "waitall-running", "plain",
 	"resize-overkill", "resize-undershoot", "resize-spin", "joinall-vs-resize", "joinall-vs-add", "zero-and-back",
-	"dependent", "nested-add"}
+	"dependent", "nested-add", "joinall-vs-setworkercount"}
 
 // cycleAndPark makes every worker go once through its loop and parks them at `point`
 // (workers that reach it), returns the rule. The workers are woken by adding and
@@ -459,6 +459,21 @@ func c09RunDirected(name string, W int) string {
 		c.setWorkers(0, true)
 		<-jd
 		c.joined = false
+	case "joinall-vs-setworkercount":
+		// a SetWorkerCount(n>0) overwrites the request of a JoinAll that is being carried out (its workers,
+		// woken by JoinAll, are held before their kill check): SOME order must win, JoinAll must return
+		c.setWorkers(W, false)
+		c.quiesce()
+		r := s.AddRule("w*", "pool.worker.head", W)
+		jd := make(chan struct{})
+		go func() { s.Adopt(); c.joinAll(); close(jd) }()
+		c.win = "0"
+		if r.WaitParked(W, 500*time.Millisecond) {
+			c.win = "1"
+		}
+		c.setWorkers(W+1, false)
+		s.Release(r)
+		c.awaitJoin(jd)
 	case "joinall-vs-add":
 		// tasks arrive while JoinAll is being carried out
 		c.setWorkers(W, false)
@@ -560,6 +575,33 @@ func (c *c09Case) joinWithAdds(n int) {
 	c.joined = true
 }
 
+// awaitJoin waits for a JoinAll running in another goroutine. JoinAll polls, so "it does not return"
+// is judged from the pool: the workers are quiescent and the Go scheduler provably ran fresh goroutines
+// for 6 rounds of 50 ms. A JoinAll that spins is reported (ja=bad) and then freed by emptying the pool.
+func (c *c09Case) awaitJoin(jd chan struct{}) {
+	c.quiesce()
+	rounds := 0
+	for k := 0; k < 60 && rounds < 6; k++ {
+		select {
+		case <-jd:
+			return
+		case <-time.After(50 * time.Millisecond):
+		}
+		if c09Heartbeat(50 * time.Millisecond) {
+			rounds++
+		}
+	}
+	select {
+	case <-jd:
+		return
+	default:
+	}
+	c.setWorkers(0, true)
+	<-jd
+	c.ja = "bad" // JoinAll did not return although the pool was quiescent
+	c.lastSet = -1
+}
+
 func (c *c09Case) runProg(prog string) {
 	for _, op := range strings.Split(prog, ";") {
 		if op == "" {
@@ -604,6 +646,14 @@ func (c *c09Case) runProg(prog string) {
 		case 'J':
 			c.bg.Wait()
 			c.joinWithAdds(n)
+		case 'Z':
+			// JoinAll overlapping a SetWorkerCount(n): whichever is decided last wins, both return
+			c.bg.Wait()
+			jd := make(chan struct{})
+			go func() { c.s.Adopt(); c.joinAll(); close(jd) }()
+			c.setWorkers(n, false)
+			c.awaitJoin(jd)
+			c.rsAlt = []int{0, n}
 		case 'n':
 			c.addTask(c.newID(), n, -1)
 		case 'd':
@@ -804,6 +854,9 @@ func c09GenProg(r *Rand, W int, g *Gen) string {
 		if x == 0 {
 			ops = append(ops, "J"+strconv.Itoa(1+r.Intn(8)))
 			g.Count("op.joinall-with-adds")
+		} else if x == 1 {
+			ops = append(ops, "Z"+strconv.Itoa(1+r.Intn(5)))
+			g.Count("op.joinall-with-resize")
 		} else {
 			ops = append(ops, "j")
 			g.Count("op.joinall")
